@@ -8,6 +8,9 @@ inductive Encoding where
   | literal | basic | mlLiteral | mlBasic
   deriving Repr, DecidableEq
 
+/-- `c <= 0x1f || c == 0x7f` -/
+def isCtlByte (b : Byte) : Bool := b ≤ 0x1F || b == 0x7F
+
 structure ValueMetrics where
   maxSingle : Nat := 0
   maxDouble : Nat := 0
@@ -26,7 +29,7 @@ def vmStep (st : ValueMetrics × Nat × Nat) (b : Byte) : ValueMetrics × Nat ×
     if b == 0x5C then { m with escape := true }
     else if b == 0x09 then m
     else if b == 0x0A then { m with newline := true }
-    else if b ≤ 0x1F || b == 0x7F then { m with escapeCodes := true }
+    else if isCtlByte b then { m with escapeCodes := true }
     else m
   (m, ps, pd)
 
@@ -49,7 +52,7 @@ def kmStep (m : KeyMetrics) (b : Byte) : KeyMetrics :=
   else if b == 0x22 then { m with doubleQuotes := true }
   else if b == 0x5C then { m with escape := true }
   else if b == 0x09 then m
-  else if b ≤ 0x1F || b == 0x7F then { m with escapeCodes := true }
+  else if isCtlByte b then { m with escapeCodes := true }
   else m
 
 def keyMetrics (s : Bytes) : KeyMetrics := s.foldl kmStep { unquoted := !s.isEmpty }
